@@ -287,6 +287,8 @@ qb_ipcs_response_send(struct qb_ipcs_connection *c, const void *data,
 
 	if (c == NULL) {
 		return -EINVAL;
+	} else if (size > c->response.max_msg_size) {
+		return -EMSGSIZE;
 	}
 	qb_ipcs_connection_ref(c);
 	res = c->service->funcs.send(&c->response, data, size);
@@ -307,6 +309,18 @@ qb_ipcs_response_send(struct qb_ipcs_connection *c, const void *data,
 	return res;
 }
 
+static size_t
+_iov_total_size(const struct iovec *iov, size_t iov_len)
+{
+	size_t total = 0;
+	size_t i;
+
+	for (i = 0; i < iov_len; i++) {
+		total += iov[i].iov_len;
+	}
+	return total;
+}
+
 ssize_t
 qb_ipcs_response_sendv(struct qb_ipcs_connection * c, const struct iovec * iov,
 		       size_t iov_len)
@@ -315,6 +329,8 @@ qb_ipcs_response_sendv(struct qb_ipcs_connection * c, const struct iovec * iov,
 
 	if (c == NULL) {
 		return -EINVAL;
+	} else if (_iov_total_size(iov, iov_len) > c->response.max_msg_size) {
+		return -EMSGSIZE;
 	}
 	qb_ipcs_connection_ref(c);
 	res = c->service->funcs.sendv(&c->response, iov, iov_len);
@@ -439,6 +455,8 @@ qb_ipcs_event_sendv(struct qb_ipcs_connection * c,
 
 	if (c == NULL) {
 		return -EINVAL;
+	} else if (_iov_total_size(iov, iov_len) > c->event.max_msg_size) {
+		return -EMSGSIZE;
 	}
 	qb_ipcs_connection_ref(c);
 
